@@ -20,12 +20,14 @@ import (
 
 // C05 — UPDATE/DELETE affect exactly the matching rows and never move a row.
 //
-//	(assign update|ondup ((QUAL NAMEHEX)…))                  key-assignment rejection
+//	(assign update|ondup ((QUAL NAMEHEX [VAL | sq|sv N])…))  key-assignment rejection, sub-queries in values
 //	(merge ((STATUS AFFECTED INSERTID)…))                    MergeExecResult
 //	(exec RULE FORM STMT META COND (rows (k o place)…))      end to end with in-memory tables
 //	(route …)                                                C01's routing lines for UPDATE/DELETE
 
-var c05Quals = []string{"none", "table", "alias", "unknown", "baddb"}
+// qualifier spellings of a column; dbtable / uptable are spellings of table (db.t.col, T.col),
+// upalias of alias (A.col), updb of baddb (DB.t.col: database names are case-sensitive)
+var c05Quals = []string{"none", "table", "alias", "unknown", "baddb", "dbtable", "uptable", "upalias", "updb"}
 var c05Names = []string{"k", "K", "o", "O", "v", "kk", "`k`", "`K`", "`o`"}
 
 // kinds of opaque predicates whose truth value the in-memory evaluator and
@@ -49,12 +51,18 @@ func genC05(g *core.Gen) {
 		var ts []core.Sexp
 		for j := 0; j < n; j++ {
 			q := core.Pick(g, c05Quals)
-			if kind == "ondup" && (q == "alias" || q == "unknown" || q == "baddb") {
+			if kind == "ondup" && q != "none" && q != "table" {
 				q = "none"
 			}
 			// the assigned value: a literal, VALUES(col), an expression over the key, another column.
-			// The decision must not depend on it.
-			ts = append(ts, core.L(core.A(q), core.Text(core.Pick(g, c05Names)), core.I(int64(g.Intn(len(c05Values))))))
+			// The decision must not depend on it …
+			t := core.L(core.A(q), core.Text(core.Pick(g, c05Names)), core.I(int64(g.Intn(len(c05Values)))))
+			if kind == "update" && g.Intn(6) == 0 {
+				// … unless it holds a sub-query: sq reads a table (rejected), sv does not
+				vc := core.Pick(g, []string{"sq", "sq", "sv"})
+				t = core.L(core.A(q), core.Text(core.Pick(g, c05Names)), core.A(vc), core.I(int64(g.Intn(len(c05SetVals[vc])))))
+			}
+			ts = append(ts, t)
 		}
 		g.Emit(core.L(core.A("assign"), core.A(kind), core.L(ts...)), "assign", "assign-"+kind)
 	}
@@ -92,6 +100,8 @@ func genC05(g *core.Gen) {
 		in := core.L(core.A("exec"), core.A(r.name), core.I(int64(g.Intn(5))), core.A(stmt), c01Meta(rule), cond, core.L(append([]core.Sexp{core.A("rows")}, rows...)...))
 		g.Emit(in, "exec", "exec-rule="+r.name, "exec-"+stmt)
 	}
+	// 3b. whole statements: LIMIT, ORDER BY, multi-table forms, sub-queries, every DELETE syntax
+	genC05Stmt(g, g.Scale(2500, 40000))
 	// 4. routing of UPDATE/DELETE on every rule kind (same lines as C01)
 	for i := 0; i < g.Scale(1500, 30000); i++ {
 		r := &c01Rules[g.Intn(len(c01Rules))]
@@ -138,6 +148,8 @@ func execC05(in core.Sexp) string {
 		return c05Exec(in)
 	case "route":
 		return execC01(in)
+	case "stmt":
+		return c05ExecStmt(in)
 	}
 	return "bad"
 }
@@ -162,13 +174,25 @@ func c05Assign(in core.Sexp) string {
 		case "alias":
 			col = "a." + name
 			useAlias = true
+		case "upalias":
+			col = "A." + name
+			useAlias = true
 		case "unknown":
 			col = "zz." + name
 		case "baddb":
 			col = "nodb.t_mod." + name
+		case "dbtable":
+			col = "db_ks.t_mod." + name
+		case "uptable":
+			col = "T_MOD." + name
+		case "updb":
+			col = "DB_KS.t_mod." + name
 		}
 		val := strconv.Itoa(i + 1)
-		if len(t.List) > 2 {
+		if len(t.List) > 3 {
+			vals := c05SetVals[t.Nth(2).Atom]
+			val = strings.ReplaceAll(vals[int(t.Nth(3).Int())%len(vals)], "%t", "t_mod")
+		} else if len(t.List) > 2 {
 			vi := int(t.Nth(2).Int()) % len(c05Values)
 			if kind != "ondup" {
 				vi %= 4 // VALUES(col) only exists in ON DUPLICATE KEY UPDATE
@@ -395,6 +419,9 @@ func c05Eval(n ast.ExprNode, row c05Row) (*int64, error) {
 		case opcode.Plus:
 			v := *l + *r
 			return &v, nil
+		case opcode.Minus:
+			v := *l - *r
+			return &v, nil
 		case opcode.LogicXor:
 			return b2i((*l != 0) != (*r != 0)), nil
 		}
@@ -450,6 +477,11 @@ func c05Eval(n ast.ExprNode, row c05Row) (*int64, error) {
 		}
 		is := v != nil && ((*v != 0) == (e.True != 0))
 		return b2i(is != e.Not), nil
+	case *ast.SubqueryExpr:
+		// a sub-query without FROM clause is the value of its only field
+		if sel, ok := e.Query.(*ast.SelectStmt); ok && sel.From == nil && sel.Where == nil && sel.Fields != nil && len(sel.Fields.Fields) == 1 {
+			return c05Eval(sel.Fields.Fields[0].Expr, row)
+		}
 	case *ast.FuncCallExpr:
 		if e.FnName.L == "abs" && len(e.Args) == 1 {
 			v, err := c05Eval(e.Args[0], row)
@@ -508,17 +540,23 @@ func c05Exec(in core.Sexp) string {
 func init() {
 	core.Register(&core.Property{
 		ID: "C05",
-		Rule: "four streams: (assign) UPDATE / INSERT…ON DUPLICATE KEY UPDATE assignment lists of 1–3 targets in plain, table-, alias-, unknown- and wrong-schema-qualified spellings with key / non-key names in both letter cases and back-quotes; " +
+		Rule: "five streams: (assign) UPDATE / INSERT…ON DUPLICATE KEY UPDATE assignment lists of 1–3 targets in plain, table-, alias-, unknown- and wrong-schema-qualified spellings with key / non-key names in both letter cases and back-quotes, values that are literals, expressions, VALUES(), sub-queries with and without FROM; " +
 			"(merge) MergeExecResult on 0–5 shard results; (exec) UPDATE/DELETE with C01 condition trees executed through the real plan's ExecuteIn on in-memory tables (1–10 integer rows placed by the real rule) with an AST evaluator of the rewritten per-table WHERE; " +
+			"(stmt) whole UPDATE / DELETE statements on six numeric rules, executed through the real plan's ExecuteIn on an in-memory backend that parses and executes every statement it is sent (WHERE, ORDER BY on k / o ascending and descending with ties, LIMIT 0…100, SET o = expression, multi-table DELETE target lists checked as MySQL does) on 0–12 rows: " +
+			"table written plain / AS a / a / db.t / (t) / with table-qualified columns, DELETE as DELETE FROM t, DELETE t FROM t, DELETE FROM t USING t, DELETE a FROM t AS a, DELETE FROM a USING t AS a, DELETE t.* FROM t, and four target lists that name no table of the FROM clause; " +
+			"seven multi-table shapes (comma, JOIN, LEFT JOIN, parenthesised, with a linked child / an unsharded table, either order); WHERE trees of C01 with sub-query predicates (3 without FROM, IN (SELECT), 10 reading a table: =, EXISTS, NOT EXISTS, ALL, IN, function argument, BETWEEN bound, nested, UNION, IS NULL); " +
+			"ORDER BY lists of 1–2 columns in every qualification or a non-column expression, with and without LIMIT, with the key pinned to one sub table in two thirds of the ORDER BY … LIMIT cases; SET lists with a second assignment (other column, sharding column in three spellings, sub-query value) before or after; the output is the reported count and every sub table's rows afterwards; " +
 			"(route) C01 routing lines for UPDATE/DELETE on all 14 rule configurations; non-trivial = accepted / executed",
 		Generate: genC05,
 		Exec:     execC05,
 		Trivial: func(in core.Sexp, out string) bool {
-			return out == "err" || strings.HasPrefix(out, "reject") || out == "panic"
+			return out == "err" || out == "(backend-error)" || strings.HasPrefix(out, "reject") || out == "panic"
 		},
 		ShrinkKeep: []string{"meta", "lit"},
 		Assumptions: []string{
-			"each backend reports as affected exactly the rows its WHERE selects (every selected row is changed); MySQL's three-valued evaluation of the generated predicate forms is as in the harness' AST evaluator and in the Lean oracle (cross-checked against each other on every case)",
+			"each backend reports as affected exactly the rows its WHERE selects (every selected row is changed; with LIMIT n the first n of them in the ORDER BY order, ties and the choice without ORDER BY in storage order — the oracle accepts any choice a single database may make); MySQL's three-valued evaluation of the generated predicate forms is as in the harness' AST evaluator and in the Lean oracle (cross-checked against each other on every case)",
+			"MySQL rejects a multi-table DELETE whose target list names no table (alias) of its FROM clause, and a sub-query naming a logical table fails on a backend; the in-memory backend does the same",
+			"the generator's statement of what a rendered text contains (single / multi table reference, sub-query class value / insel / table, qualifier kinds) is what the parser delivers",
 			"TZ=UTC; rows are stored where FindTableIndex places their key (C03/C09)",
 		},
 	})
